@@ -423,3 +423,131 @@ Print Assumptions c05_stored_url_is_a_fixed_point.
 Print Assumptions c05_normal_url_instances.
 Print Assumptions c05_url_norm_rows.
 Print Assumptions c05_url_norm_edges.
+
+(* ================================================================== X14: the url crate concrete in every place *)
+
+(** Until X14 [norm], [url_ok] and [host_canon] were `Section` variables of Model/Metainfo.v in every theorem above (X10's
+    corollaries kept an arbitrary [ext] for the texts outside the fragment). Model/UrlConcrete.v now gives the instances:
+    [c_norm] / [c_url_ok] (X10's [u_norm]; acceptance also for non-special schemes without `//`, which `parse_non_special`
+    never refuses), [c_host_canon] (X9's [u_hparse] of the text - of `[text]` when it contains a colon - followed by std's
+    Display, which is what `Tuple::from(&HostPort)` stores). What the instances leave open is stated by boolean predicates on
+    the INPUTS: [opts_in_fragment o] = --announce / --update-url are URLs the model parses, every tier member is a text
+    whose acceptance the model decides, every node host is a host the model accepts. The instances are compared with the
+    `url_norm` / `hpben` hooks and with the bytes the real binary writes on every run of this check (tools/props/c05.py,
+    tools/props/urlconcrete.py). *)
+From Imdl Require Import Model.UrlConcrete Proofs.UrlConcreteProofs Proofs.UrlConcreteUses.
+
+(** what the older statements would have had to assume of [norm] / [url_ok]: identity on normal forms, idempotence (on EVERY
+    text), and for an accepted text: the stored form is the model's normal form, is in normal form, is accepted again *)
+Theorem c05_concrete_norm_is_a_normaliser :
+  (forall u, is_normal_url u = true -> c_norm u = u) /\ (forall t, c_norm (c_norm t) = c_norm t) /\
+  (forall u, is_normal_url u = true -> c_url_ok u = true /\ url_in_fragment u = true) /\
+  (forall t, opt_url_accepted (Some t) = true ->
+     u_norm t = Some (Some (c_norm t)) /\ is_normal_url (c_norm t) = true /\
+     c_url_norm t = Some (c_norm t) /\ c_url_norm (c_norm t) = Some (c_norm t) /\
+     c_url_ok t = true /\ c_url_ok (c_norm t) = true /\ c_norm (c_norm t) = c_norm t /\
+     (is_normal_url t = true -> c_norm t = t)).
+Proof. exact (conj c_norm_fixed (conj c_norm_idempotent (conj c_url_ok_normal c_norm_accepted))). Qed.
+
+(** the acceptance test: inside the fragment of [u_norm] it accepts exactly the texts that have a normal form; the wider
+    fragment (no `//` after a non-special scheme) only speaks where [u_norm] is silent *)
+Theorem c05_concrete_url_ok :
+  (forall t, url_in_fragment t = true -> (c_url_ok t = true <-> exists u, c_url_norm t = Some u)) /\
+  (forall t, url_no_authority t = true -> u_norm t = None /\ c_url_ok t = true).
+Proof. exact (conj c_url_ok_spec (fun t H => conj (url_no_authority_outside t H) (c_url_ok_no_authority t H))). Qed.
+
+(** [host_canon]: for an accepted host the stored text is std's Display of the parsed host; the typed loader reads it back
+    and `show` prints the host as the url crate displays it; storing the stored text again changes nothing; it is ASCII *)
+Theorem c05_concrete_host_canon :
+  forall t, c_host_ok t = true ->
+  exists h, u_hparse (hp_rebracket t) = Some (Some h) /\
+    c_host_canon t = hp_plain u_std4 u_std6 h /\
+    c_host_disp t = Some (hshow u_std4 u_url6 h) /\
+    c_host_disp (c_host_canon t) = Some (hshow u_std4 u_url6 h) /\
+    c_host_ok (c_host_canon t) = true /\
+    c_host_canon (c_host_canon t) = c_host_canon t.
+Proof. exact c_host_canon_spec. Qed.
+
+Theorem c05_concrete_stored_host_is_ascii :
+  forall t, c_host_ok t = true -> forallb (fun b => b <? 128) (c_host_canon t) = true.
+Proof. exact c_host_canon_ascii. Qed.
+
+(** headline: create stores exactly the normal form of each URL and host given ... *)
+Check c_create_stores_normal_forms : forall sfx o c v,
+  c_build sfx o c = Some v -> opts_in_fragment o = true ->
+  vget (txt "announce") v = option_map (fun u => Str (c_norm u)) (o_announce o) /\
+  iget (txt "update-url") v = option_map (fun u => Str (c_norm u)) (o_update_url o) /\
+  vget (txt "nodes") v = (match o_nodes o with [] => None | _ => Some (Lst (map node_stored (o_nodes o))) end) /\
+  (forall u, o_announce o = Some u \/ o_update_url o = Some u ->
+     u_norm u = Some (Some (c_norm u)) /\ is_normal_url (c_norm u) = true /\ c_norm (c_norm u) = c_norm u /\
+     (is_normal_url u = true -> c_norm u = u)) /\
+  (forall n, In n (o_nodes o) ->
+     exists h, u_hparse (hp_rebracket (unbracket (fst n))) = Some (Some h) /\
+               c_host_canon (unbracket (fst n)) = hp_plain u_std4 u_std6 h /\
+               c_host_canon (c_host_canon (unbracket (fst n))) = c_host_canon (unbracket (fst n))).
+Theorem c05_concrete_create_stores_normal_forms : forall sfx o c v,
+  c_build sfx o c = Some v -> opts_in_fragment o = true ->
+  vget (txt "announce") v = option_map (fun u => Str (c_norm u)) (o_announce o) /\
+  iget (txt "update-url") v = option_map (fun u => Str (c_norm u)) (o_update_url o) /\
+  vget (txt "nodes") v = (match o_nodes o with [] => None | _ => Some (Lst (map node_stored (o_nodes o))) end) /\
+  (forall u, o_announce o = Some u \/ o_update_url o = Some u ->
+     u_norm u = Some (Some (c_norm u)) /\ is_normal_url (c_norm u) = true /\ c_norm (c_norm u) = c_norm u /\
+     (is_normal_url u = true -> c_norm u = u)) /\
+  (forall n, In n (o_nodes o) ->
+     exists h, u_hparse (hp_rebracket (unbracket (fst n))) = Some (Some h) /\
+               c_host_canon (unbracket (fst n)) = hp_plain u_std4 u_std6 h /\
+               c_host_canon (c_host_canon (unbracket (fst n))) = c_host_canon (unbracket (fst n))).
+Proof. exact c_create_stores_normal_forms. Qed.
+
+(** ... and storing what was stored again changes nothing: a second command line that gives back the stored announce,
+    update URL and node hosts (compared without the brackets the command line needs around an IPv6 literal) stores the same
+    three values and is inside the fragments again *)
+Theorem c05_concrete_create_again_changes_nothing : forall sfx o c v sfx' o' c' v',
+  c_build sfx o c = Some v -> opts_in_fragment o = true -> c_build sfx' o' c' = Some v' ->
+  o_announce o' = option_map c_norm (o_announce o) ->
+  o_update_url o' = option_map c_norm (o_update_url o) ->
+  map (fun n => (unbracket (fst n), snd n)) (o_nodes o') =
+    map (fun n => (c_host_canon (unbracket (fst n)), snd n)) (o_nodes o) ->
+  vget (txt "announce") v' = vget (txt "announce") v /\
+  iget (txt "update-url") v' = iget (txt "update-url") v /\
+  vget (txt "nodes") v' = vget (txt "nodes") v /\
+  opt_url_accepted (o_announce o') = true /\ opt_url_accepted (o_update_url o') = true /\
+  forallb (fun n => c_host_ok (unbracket (fst n))) (o_nodes o') = true.
+Proof. exact c_create_again_changes_nothing. Qed.
+
+(** the premises are satisfiable by non-trivial values: a tracker URL with an upper-case scheme and host, a port and a
+    dot segment; an update URL with a default port; an IPv6 node in a long spelling, a domain in upper case, an IPv4 node in
+    hexadecimal; the tiers of [ex_opts] *)
+Definition x14_opts : opts :=
+  {| o_announce := Some (txt "HTTP://Tracker.Example:8080/a/../announce?k=v");
+     o_tiers := o_tiers ex_opts; o_comment := None; o_source := None;
+     o_nodes := [(txt "[2001:DB8:0:0:0:0:0:1]", 6881); (txt "Router.Example.COM", 6882); (txt "0xcb.0.113.5", 1);
+                 (txt "[::ffff:1.2.3.4]", 2)];
+     o_private := false; o_update_url := Some (txt "https://example.com:443/feed"); o_name := None;
+     o_piece_length := None; o_md5 := false; o_no_created_by := true; o_no_creation_date := true;
+     o_allow_small := false; o_allow_uneven := false; o_allow_private_trackerless := false; o_now := 0 |}.
+
+Example c05_concrete_instance :
+  opts_in_fragment x14_opts = true /\ opts_in_fragment ex_opts = true /\
+  c_create_bytes [] ex_opts ex_content = Some ex_bytes /\
+  match c_build [] x14_opts ex_content with
+  | Some v =>
+      vget (txt "announce") v = Some (Str (txt "http://tracker.example:8080/announce?k=v")) /\
+      iget (txt "update-url") v = Some (Str (txt "https://example.com/feed")) /\
+      vget (txt "nodes") v = Some (Lst [Lst [Str (txt "2001:db8::1"); Int 6881]; Lst [Str (txt "router.example.com"); Int 6882];
+                                        Lst [Str (txt "203.0.113.5"); Int 1]; Lst [Str (txt "::ffff:1.2.3.4"); Int 2]])
+  | None => False
+  end /\
+  map (fun n => c_host_disp (c_host_canon (unbracket (fst n)))) (o_nodes x14_opts) =
+    [Some (txt "[2001:db8::1]"); Some (txt "router.example.com"); Some (txt "203.0.113.5"); Some (txt "[::ffff:102:304]")] /\
+  c_url_ok (txt "magnet:?xt=urn:btih:00") = true /\ url_in_fragment (txt "magnet:?xt=urn:btih:00") = false /\
+  c_url_ok (txt "http://a b/") = false /\ c_host_ok (txt "a b") = false /\ host_in_fragment (txt "xn--bcher-kva.example") = false.
+Proof. vm_compute. repeat split; reflexivity. Qed.
+
+Print Assumptions c05_concrete_norm_is_a_normaliser.
+Print Assumptions c05_concrete_url_ok.
+Print Assumptions c05_concrete_host_canon.
+Print Assumptions c05_concrete_stored_host_is_ascii.
+Print Assumptions c05_concrete_create_stores_normal_forms.
+Print Assumptions c05_concrete_create_again_changes_nothing.
+Print Assumptions c05_concrete_instance.
